@@ -30,6 +30,19 @@ GRAMMARS = {
     "examples/ini/ini.pest": (["file"], ["a=1\n[s]\nb=2\n", "[s]\n", "a=\n", "a\n", "[s\n"]),
     "examples/csv/csv.pest": (["file"], ["1,2\n3,4\n", "1\n", "1,\n", "a\n", ""]),
 }
+# Small grammars written for this check: constructs that none of the bundled grammars holds (stack operations that replace an entry,
+# case-insensitive keywords and stops, the skip idiom, tags, bounded repetitions, compound-atomic rules).  The statement's first sentence
+# is about every grammar; the bundled ones are its named corpus.
+SYNTHETIC = {
+    "synthetic:stack": (
+        'doc = { SOI ~ item* ~ EOI }\nitem = { fenced | swap | ind | ";" }\nfenced = { PUSH(fence) ~ body ~ POP }\nfence = { "`"+ }\nbody = { (!PEEK ~ ANY)* }\n'
+        'swap = { PUSH("a") ~ (POP ~ PUSH("b"))? ~ POP }\nind = { PUSH(" "+) ~ "x" ~ (NEWLINE ~ PEEK_ALL ~ "y")* ~ DROP }\n',
+        ["doc", "swap", "fenced"], ["`a`", "``a`b``", "aabb", "aa", "`a`;aabb; x\n y", " x\n y\n y;", "``a`", "aab", " x\n  y", ";;", ""]),
+    "synthetic:keywords": (
+        'WHITESPACE = _{ " " }\nprog = { SOI ~ stmt* ~ EOI }\nstmt = { block | cond | word }\nblock = { ^"begin" ~ body ~ ^"end" }\nbody = ${ (!^"end" ~ ANY)* }\n'
+        'cond = { ^"if" ~ #c = word ~ (^"then" ~ #t = (word)+)? ~ ";" }\nword = @{ !(^"begin" | ^"end" | ^"if" | ^"then") ~ ASCII_ALPHA{1,3} ~ ASCII_DIGIT{,2} }\n',
+        ["prog", "block", "cond"], ["begin x End", "BEGIN end", "begin en END", "if a then b c;", "IF ab1 ;", "if a then;", "begin x", "if then;", "abc d12 e", "abcd", "begin if End", ""]),
+}
 EXAMPLE_FILES = {
     "tests/grammars/json.pest": ["tests/examples/example.json"], "tests/grammars/toml.pest": ["tests/examples/example.toml"], "tests/grammars/http.pest": ["tests/examples/example.http"],
     "examples/json/json.pest": ["examples/json/example.json"], "examples/ini/ini.pest": ["examples/ini/example.ini"], "examples/csv/csv.pest": ["examples/csv/example.csv"],
@@ -37,6 +50,12 @@ EXAMPLE_FILES = {
 BIG = {"tests/grammars/sql.pest", "examples/jsonpath/jsonpath.pest"}
 # quick: both interpreters only for these (exec of their generated modules dominates the budget); thorough: four modes everywhere
 QUICK_INTERP_ONLY = BIG | {"tests/grammars/json.pest", "examples/json/json.pest", "tests/grammars/toml.pest"}
+
+
+def read_grammar(gpath):
+    if gpath in SYNTHETIC:
+        return SYNTHETIC[gpath][0]
+    return open(os.path.join(common.REPO, gpath), encoding="utf-8").read()
 
 
 def sites_of(text):
@@ -115,9 +134,9 @@ def rewrites_of(text, site):
 BASIC = ("parens", "dup-choice", "never-seq", "never-not", "extract")
 # combinations: grammar files small enough to afford them, per tier
 COMBO_FILES = {
-    "quick": ("examples/csv/csv.pest", "examples/ini/ini.pest", "tests/grammars/lists.pest"),
+    "quick": ("examples/csv/csv.pest", "examples/ini/ini.pest", "tests/grammars/lists.pest", "synthetic:stack", "synthetic:keywords"),
     "thorough": ("examples/csv/csv.pest", "examples/ini/ini.pest", "tests/grammars/lists.pest", "tests/grammars/http.pest", "examples/calculator/calculator.pest",
-                 "examples/calculator/grammar_encoded_prec.pest", "examples/json/json.pest", "tests/grammars/json.pest"),
+                 "examples/calculator/grammar_encoded_prec.pest", "examples/json/json.pest", "tests/grammars/json.pest", "synthetic:stack", "synthetic:keywords"),
 }
 COMBO_KINDS = {"quick": ("dup-choice", "never-seq", "never-not", "extract"), "thorough": BASIC}
 
@@ -196,7 +215,7 @@ def all_jobs(text, gpath, tier):
 
 
 def corpus(gpath, tier):
-    starts, shorts = GRAMMARS[gpath]
+    starts, shorts = GRAMMARS[gpath] if gpath in GRAMMARS else SYNTHETIC[gpath][1:]
     ins = list(shorts)
     for f in EXAMPLE_FILES.get(gpath, []) if tier == "thorough" else []:
         fp = os.path.join(common.REPO, f)
@@ -224,7 +243,7 @@ def corpus(gpath, tier):
 
 def _worker(payload):
     gpath, lo, hi, mode_list, tier = payload
-    text = open(os.path.join(common.REPO, gpath), encoding="utf-8").read()
+    text = read_grammar(gpath)
     starts, ins = corpus(gpath, tier)
     sites, jobs = all_jobs(text, gpath, tier)
     jobs = jobs[lo:hi]
@@ -262,7 +281,7 @@ def _worker(payload):
 
 
 def n_jobs(gpath, tier):
-    text = open(os.path.join(common.REPO, gpath), encoding="utf-8").read()
+    text = read_grammar(gpath)
     sites, jobs = all_jobs(text, gpath, tier)
     return len(jobs), len(sites), sum(1 for j in jobs if j[2].split(":")[0] in ("nested", "at-once", "pair"))
 
@@ -276,8 +295,8 @@ def run(tier: str) -> int:
     nsites = 0
     njobs = 0
     ncombo = 0
-    for gpath in GRAMMARS:
-        if not os.path.exists(os.path.join(common.REPO, gpath)):
+    for gpath in list(GRAMMARS) + list(SYNTHETIC):
+        if gpath not in SYNTHETIC and not os.path.exists(os.path.join(common.REPO, gpath)):
             continue
         nj, ns, nc = n_jobs(gpath, tier)
         nsites += ns
@@ -327,7 +346,8 @@ def run(tier: str) -> int:
     rep.coverage = {
         "evaluations": agg["evaluations"],
         "distinct_nontrivial": agg["nontrivial"],
-        "rule": "for each bundled grammar (tests: json, toml, sql, http, lists; examples: json, calculator x2, jsonpath, ini, csv) every site of the meta-grammar's parse tree of the file - every untagged term, every rule-body / parenthesised / PUSH expression, "
+        "rule": "for each bundled grammar (tests: json, toml, sql, http, lists; examples: json, calculator x2, jsonpath, ini, csv) and two small grammars written for this check "
+                "(stack operations that replace an entry, fences and indentation; case-insensitive keywords and stops, the skip idiom, tags, bounded repetitions, atomic and compound-atomic rules, implicit whitespace) every site of the meta-grammar's parse tree of the file - every untagged term, every rule-body / parenthesised / PUSH expression, "
                 "every run of >= 3 sequence terms or alternatives - x the rewrite kinds: (e); (e) | (e); ((e) ~ NEVER) | (e); (!(e) ~ NEVER) | (e); extraction into a fresh silent rule; every re-association split of ~ and | runs. "
                 "Combinations: (a) nested - a second rewrite applied to the result of a first one at the same site, every ordered pair of kinds, on the smaller grammars (quick: csv, ini, lists with four kinds; thorough: also http, both calculators, both json with five kinds); "
                 "(b) at once - one kind applied simultaneously to every literal (string, insensitive string, character range) of the file, all files; (c) thorough: every two nearby non-overlapping sites both rewritten (six kind pairs). "
@@ -349,7 +369,7 @@ def run(tier: str) -> int:
 
 def replay_case(case: dict, quiet: bool = False) -> bool:
     gpath = case["grammar_file"]
-    text = open(os.path.join(common.REPO, gpath), encoding="utf-8").read()
+    text = read_grammar(gpath)
     mode = case["mode"]
     p0 = modes.build(text, mode)
     p1 = modes.build(case["grammar"], mode)
